@@ -1,0 +1,12 @@
+//go:build verif
+
+package community
+
+import "math/big"
+
+// VerifCheckPrimeFactorsTooClose exposes checkPrimeFactorsTooClose (build tag
+// "verif" only) so the Fermat loop can be driven directly with chosen moduli
+// and round counts.
+func VerifCheckPrimeFactorsTooClose(n *big.Int, rounds int) error {
+	return checkPrimeFactorsTooClose(n, rounds)
+}
